@@ -283,6 +283,7 @@ def tokEvents (t : String) : Option (List ReaderClose.Event) :=
   | ["bc", _] => some [.connClose, .coordClose]
   | ["fq"] => some [.fetchReq]
   | ["lk", _] => some []
+  | ["to", _] => some []                        -- a call the driver waited for during the whole watchdog bound (monitor)
   | ["lo", _] => some []                        -- connections of the Reader's lag monitor: censused (`oc`), not ordered
   | ["lc", _] => some []
   | ["oc", _] => some []
@@ -380,7 +381,7 @@ def holds (toks : List String) : Bool :=
          | _ => true)
       else (res != "ctx" || cancelled) && (res != "eof" || xb.isSome) && (res != "closed" || xb.isSome) && (res != "gclosed" || xb.isSome)
   -- M7 census
-  let m7 := toks.all fun (t : String) => !(t.startsWith "lk/" || t.startsWith "oc/") || t == "lk/0" || t == "oc/0"
+  let m7 := toks.all fun (t : String) => !(t.startsWith "lk/" || t.startsWith "oc/" || t.startsWith "to/") || t == "lk/0" || t == "oc/0"
   -- M8 each connection the Reader / ConsumerGroup opened (fetcher `bo/n`, coordinator `co/n`) is closed, once,
   -- before Close returns
   let m8 := xr.isNone || toks.all fun (t : String) =>
@@ -396,7 +397,7 @@ def holdsT (toks : List String) : Bool :=
   calls.all (fun c => toks.contains s!"rr/{c}/ctx" || (toks.contains s!"rr/{c}/err" || toks.contains s!"rr/{c}/ok") && !toks.contains s!"cx/{c}"
     -- a call whose answer arrived before its context ended may return it
     || toks.contains s!"rr/{c}/ok") &&
-  toks.all fun (t : String) => !(t.startsWith "lk/" || t.startsWith "oc/") || t == "lk/0" || t == "oc/0"
+  toks.all fun (t : String) => !(t.startsWith "lk/" || t.startsWith "oc/" || t.startsWith "to/") || t == "lk/0" || t == "oc/0"
 
 def simulateT (toks : List String) : String :=
   match simulate false toks with
